@@ -195,7 +195,7 @@ def match_known(sig, known):
 
 # ----------------------------------------------------------------------------
 # shrinking
-def shrink(plan, candidates_fn, still_fails, max_execs=120, wall=90):
+def shrink(plan, candidates_fn, still_fails, max_execs=260, wall=150):
     """Greedy delta debugging. candidates_fn(plan) yields smaller plans; still_fails(plan) -> bool
     executes a candidate in a pristine child and checks the same signature persists."""
     t0 = time.time()
